@@ -136,7 +136,7 @@ PROPS = {
         "level": "exploration",
         "interpreters": ("3.7", "3.8", "3.9", "3.10", "3.11"),
         "post": "c07_schema",
-        "rule": "every value of S-CONST (see C08) x position {instruction operand, unreferenced table entry, operand of a nested function} and every string of a 19-string list (empty, non-ASCII, astral, lone surrogates, NUL, tag lookalikes) x position {name, local, parameter, cell, free variable, co_name, co_filename, docstring, class name}, each built as a real code object (decoded and normalized) and as hand-built CodeData; 4 synthetic CodeData exercising every schema definition; every code object (decoded and normalized) of program stratum Pa (optimize 0) as whole-module documents (thorough: every stratum except the stdlib corpus and the triple/depth-3 strata, every nested object on its own too). For each: strict-JSON walker, independent Draft-7 mini validator (cross-checked in the driver against jsonschema.Draft7Validator on a deterministic subset + negative controls), json and json-as-UTF-8 (and orjson on 3.11) serialize/parse cycles, from_json_data == original (strict key, NaNs identified), hashable, to_code identical.",
+        "rule": "every value of S-CONST (see C08) x position {instruction operand, unreferenced table entry, operand of a nested function} and every string of a 19-string list (empty, non-ASCII, astral, lone surrogates, NUL, tag lookalikes) x position {name, local, parameter, cell, free variable, co_name, co_filename, docstring, class name}, each built as a real code object (decoded and normalized) and as hand-built CodeData; 4 synthetic CodeData exercising every schema definition; every code object (decoded and normalized) of program stratum Pa (optimize 0) as whole-module documents (thorough: every quick-tier stratum of the code-object checks (no stdlib corpus, no depth-2 expression, triple or depth-3 strata), every nested object on its own too). For each: strict-JSON walker, independent Draft-7 mini validator (cross-checked in the driver against jsonschema.Draft7Validator on a deterministic subset + negative controls), json and json-as-UTF-8 (and orjson on 3.11) serialize/parse cycles, from_json_data == original (strict key, NaNs identified), hashable, to_code identical.",
         "assumptions": TRUST + ["orjson exists only on the 3.11 host, where only hand-built CodeData can be used (from_code cannot run there)"],
         "required_reach": {"quick": ["cycle-ok:json", "cycle-ok:json-utf8", "cycle-ok:orjson@3.11", "encodes-identically"]},
     },
